@@ -204,6 +204,71 @@ def h_roundtrip(env, version=3.1, ids="a", tomo_format="", subtomo_format=""):
         env.check("halfset_parity_kept_%d" % i, env.true() if int(float(a["subtomo_id"])) % 2 == int(r["subtomo_id"]) % 2 else _false(env))
 
 
+def h_via_file(env, version=3.1, optics=True, explicit=False):
+    """export -> STAR file -> import (RelionMotl(path)): every particle returns to the same position and orientation.  Cell
+    values are concrete and exact in the file's decimals (float<->text has no SMT theory); what varies by solver forks is the
+    pixel size (from a finite set), the id pattern and whether version / pixel size are passed or taken from the file
+    (optics block / column sniffing)."""
+    cm = env.module("cryomotl")
+    env.option("real_rotation", True)        # every cell is concrete here: rotations go through the real scipy class
+    px = [1.0, 2.5, 0.75][_pickc(env, "px", 3)]
+    ids = IDS[["a", "b"][_pickc(env, "ids", 2)]]
+    rows = []
+    for i, (t, sn, c) in enumerate(ids):
+        r = {k: 0.0 for k in COLS}
+        r.update(tomo_id=float(t), subtomo_id=float(sn), object_id=float(i + 1), x=10.0 + 3 * i, y=20.0 - i, z=5.0 + 7 * i,
+                 shift_x=0.25 * (i + 1), shift_y=-0.5 * i, shift_z=0.125, phi=30.0 * i - 45.0, theta=[0.0, 90.0, 37.5][i % 3], psi=15.0 * i + 10.0, score=0.5)
+        r["class"] = float(c)
+        rows.append(r)
+    df = pd.DataFrame({k: np.array([r[k] for r in rows], dtype=float) for k in COLS}, columns=COLS)
+    p = env.real_path("particles.star")
+    rm = cm.RelionMotl(df, version=version, pixel_size=px, binning=1.0)
+    rm.write_out(p, write_optics=optics)
+    back = cm.RelionMotl(p, version=version, pixel_size=px) if explicit else (cm.RelionMotl(p) if optics else cm.RelionMotl(p, pixel_size=px))
+    bdf = back.df
+    env.check("row_count", env.true() if bdf.shape[0] == len(rows) else env.not_(env.true()))
+    env.check("version_recognised", env.true() if float(back.version) == float(version) else env.not_(env.true()))
+    if bdf.shape[0] != len(rows):
+        return
+    import math
+
+    def R(phi, theta, psi):
+        return R_zxz(_PlainEnv, phi, theta, psi)
+    for i, r in enumerate(rows):
+        a = {k: float(bdf[k].iloc[i]) for k in COLS}
+        okp = all(abs((a[c] + a["shift_" + c]) - (r[c] + r["shift_" + c])) <= 1e-4 for c in "xyz")
+        env.check("file_same_position_%d" % i, env.true() if okp else env.not_(env.true()))
+        Ra, Rr = R(a["phi"], a["theta"], a["psi"]), R(r["phi"], r["theta"], r["psi"])
+        oko = all(abs(Ra[u][v] - Rr[u][v]) <= 1e-4 for u in range(3) for v in range(3))
+        env.check("file_same_orientation_%d" % i, env.true() if oko else env.not_(env.true()))
+        env.check("file_same_tomo_class_%d" % i, env.true() if (a["tomo_id"] == r["tomo_id"] and a["class"] == r["class"]) else env.not_(env.true()))
+        env.check("file_subtomo_number_recoverable_%d" % i, env.true() if a["geom3"] == r["subtomo_id"] else env.not_(env.true()))
+        env.check("file_halfset_parity_%d" % i, env.true() if int(a["subtomo_id"]) % 2 == int(r["subtomo_id"]) % 2 else env.not_(env.true()))
+
+
+class _PlainEnv:
+    """float evaluation of the harness' matrix formulas"""
+    mode = "conc"
+
+    @staticmethod
+    def cos(a):
+        import math
+        return math.cos(math.radians(float(a)))
+
+    @staticmethod
+    def sin(a):
+        import math
+        return math.sin(math.radians(float(a)))
+
+
+def _pickc(env, name, k):
+    v = env.choice(name, list(range(k)))
+    if env.mode == "sym":
+        from sx import core
+        return int(core.concretize(v)) if core.is_sym(v) else int(v)
+    return int(v)
+
+
 def jobs(tier, seed):
     j = []
     for v in (3.0, 3.1, 4.0):
@@ -222,7 +287,10 @@ def jobs(tier, seed):
           ("h_import", {"version": 3.1, "ids": "b", "via": "relion2emmotl"}), ("h_import", {"version": 4.0, "ids": "a", "names": "strings", "via": "relion2emmotl"}),
           ("h_roundtrip", {"version": 3.1, "ids": "b", "tomo_format": "TS_$xxx.rec", "subtomo_format": "subtomo/T_$xxxx/T$xxxx_$yyyyy_7.40A.mrc"}),
           ("h_roundtrip", {"version": 4.0, "ids": "b", "tomo_format": "TS_$xxx", "subtomo_format": "TS_$xxx/$y"})]
+    j += [("h_via_file", {"version": 3.1, "optics": True}), ("h_via_file", {"version": 4.0, "optics": True}), ("h_via_file", {"version": 3.0, "optics": False}),
+          ("h_via_file", {"version": 3.1, "optics": False, "explicit": True})]
     if tier == "thorough":
+        j += [("h_via_file", {"version": 4.0, "optics": False}), ("h_via_file", {"version": 4.0, "optics": True, "explicit": True})]
         for v in (3.0, 3.1, 4.0):
             j.append(("h_export", {"version": v, "ids": "b", "via": "emmotl2relion"}))
             j.append(("h_import", {"version": v, "ids": "b", "names": "numbers", "via": "relion2emmotl"}))
